@@ -15,9 +15,11 @@ accepts `U` under type DNA (only RNA rewrites it to `T`), and `U` and `T` have t
 `A`, so for double-stranded DNA two inputs that differ only in `U` vs `T` — not the same molecule —
 receive the same seqhash (`hash_inj_dna_u_witness`, kernel-checked on the model).  The clause is
 therefore proved as `hash_inj_partial` under a SUFFICIENT hypothesis (no `U` in double-stranded DNA
-inputs; it also excludes harmless inputs such as `ACU`), and `hash_collision_class` gives the EXACT
-residue unconditionally: a collision between different molecules happens only between double-stranded
-DNA sequences, one containing `U`, with the same other strand.  The completeness direction fails in
+inputs; it also excludes harmless inputs such as `ACU`), and `hash_collision_class` bounds the collisions
+unconditionally ("collision ⇒ same molecule ∨ residue"): a collision between different molecules
+happens only between double-stranded DNA sequences, one containing `U`, with the same other strand
+which is the hashed strand of both; `hash_collision_of_residue` is the converse (that residue always
+collides), so the pair characterises the collision set exactly.  The completeness direction fails in
 the same class (`hash_same_molecule_dna_u_witness`; `hash_same_molecule_partial`).  `Z` (complemented to the zero rune, under DNA
 and RNA) is NOT excluded: complementing is injective on the accepted nucleotide letters other than
 `U`, so nothing collides with `Z`.
@@ -109,27 +111,54 @@ theorem canon_eq_strands {x y : Str} {circ ds : Bool} (h : canonSpec x circ ds =
     · exact ⟨revComp x, by simp [strands], y, by simp [strands], (canon_ss_eq_iff _ _ _).1 h⟩
     · exact ⟨revComp x, by simp [strands], revComp y, by simp [strands], (canon_ss_eq_iff _ _ _).1 h⟩
 
-/-- EXACT residue of the separation clause, unconditionally: equal canonical representatives mean the
-same molecule, or — double-stranded only — the two sequences have the SAME OTHER STRAND (up to rotation) -/
+/-- the OTHER strand is the one that gets hashed: it is no greater than the sequence itself (least
+rotations compared when circular) -/
+def OtherStrandLesser (circ : Bool) (x : Str) : Prop :=
+  lexLe (canonSpec (Transform.revComp x) circ false) (canonSpec x circ false) = true
+
+instance (circ : Bool) (x : Str) : Decidable (OtherStrandLesser circ x) := by
+  unfold OtherStrandLesser; infer_instance
+
+/-- residue of the separation clause, unconditionally: equal canonical representatives mean the same
+molecule, or — double-stranded only — the two sequences have the SAME OTHER STRAND (up to rotation) and
+for both it is the other strand that is hashed -/
 theorem canon_eq_cases {x y : Str} {circ ds : Bool} (h : canonSpec x circ ds = canonSpec y circ ds) :
-    SameMolecule x y circ ds ∨ (ds = true ∧ SameUpToRotation circ (revComp x) (revComp y)) := by
-  obtain ⟨x', hx', y', hy', hs⟩ := canon_eq_strands h
+    SameMolecule x y circ ds ∨
+      (ds = true ∧ SameUpToRotation circ (revComp x) (revComp y) ∧
+        OtherStrandLesser circ x ∧ OtherStrandLesser circ y) := by
   cases ds
-  · simp only [strands, Bool.false_eq_true, ↓reduceIte, List.mem_singleton] at hx' hy'
-    subst hx'; subst hy'
-    exact Or.inl (Or.inl hs)
-  · simp only [strands, ↓reduceIte, List.mem_cons, List.not_mem_nil, or_false] at hx' hy'
-    rcases hx' with rfl | rfl <;> rcases hy' with rfl | rfl
-    · exact Or.inl (Or.inl hs)
-    · exact Or.inl (Or.inr ⟨rfl, Or.inl hs⟩)
-    · exact Or.inl (Or.inr ⟨rfl, Or.inr hs⟩)
-    · exact Or.inr ⟨rfl, hs⟩
+  · exact Or.inl (Or.inl ((canon_ss_eq_iff circ x y).1 h))
+  · rw [canon_ds, canon_ds] at h
+    rcases lexMin_eq_or (canonSpec x circ false) (canonSpec (revComp x) circ false) with ex | ex <;>
+    rcases lexMin_eq_or (canonSpec y circ false) (canonSpec (revComp y) circ false) with ey | ey
+    · rw [ex, ey] at h; exact Or.inl (Or.inl ((canon_ss_eq_iff _ _ _).1 h))
+    · rw [ex, ey] at h; exact Or.inl (Or.inr ⟨rfl, Or.inl ((canon_ss_eq_iff _ _ _).1 h)⟩)
+    · rw [ex, ey] at h; exact Or.inl (Or.inr ⟨rfl, Or.inr ((canon_ss_eq_iff _ _ _).1 h)⟩)
+    · have lx : OtherStrandLesser circ x := by
+        have := lexMin_le_left (canonSpec x circ false) (canonSpec (revComp x) circ false)
+        rwa [ex] at this
+      have ly : OtherStrandLesser circ y := by
+        have := lexMin_le_left (canonSpec y circ false) (canonSpec (revComp y) circ false)
+        rwa [ey] at this
+      rw [ex, ey] at h
+      exact Or.inr ⟨rfl, (canon_ss_eq_iff _ _ _).1 h, lx, ly⟩
+
+/-- …and CONVERSELY that residue always collides: same other strand, hashed for both ⇒ equal
+representatives.  (Without the two `OtherStrandLesser` conjuncts it does not: `AAU`/`AAT` have the same
+other strand `ATT` but are hashed as themselves.) -/
+theorem canon_eq_of_residue {x y : Str} {circ : Bool}
+    (hs : SameUpToRotation circ (revComp x) (revComp y))
+    (lx : OtherStrandLesser circ x) (ly : OtherStrandLesser circ y) :
+    canonSpec x circ true = canonSpec y circ true := by
+  rw [canon_ds, canon_ds, lexMin_comm (canonSpec x circ false), lexMin_eq_left lx,
+    lexMin_comm (canonSpec y circ false), lexMin_eq_left ly]
+  exact (canon_ss_eq_iff _ _ _).2 hs
 
 /-- without `U` the same other strand means the same sequence, so that is `SameMolecule` -/
 theorem sameMolecule_of_canon_eq {x y : Str} {circ ds : Bool}
     (hx : ds = true → NoU x) (hy : ds = true → NoU y)
     (h : canonSpec x circ ds = canonSpec y circ ds) : SameMolecule x y circ ds := by
-  rcases canon_eq_cases h with hs | ⟨hd, hs⟩
+  rcases canon_eq_cases h with hs | ⟨hd, hs, _, _⟩
   · exact hs
   · exact Or.inl (hs.of_revComp (hx hd) (hy hd))
 
@@ -202,8 +231,8 @@ theorem Accepted.noU {ty : String} {t : Str} (h : Accepted ty true t) (hu : 'U' 
 
    is REFUTED by `hash_inj_dna_u_witness` below (known finding C05-dna-u-strand).  What is proved is
    the same statement under the hypothesis `hcl` (double-stranded DNA inputs contain no `U`/`u`), which is
-   SUFFICIENT, not exact (it also excludes `ACU`/`ACT`, which do not collide); the exact residue is
-   `hash_collision_class`. -/
+   SUFFICIENT, not exact (it also excludes `ACU`/`ACT`, which do not collide); the collision set is
+   characterised by the pair `hash_collision_class` (upper bound) / `hash_collision_of_residue` (converse). -/
 
 /-- Two accepted inputs receive the same seqhash only if they denote the same molecule: same type,
 topology and strandedness, and normalised sequences equal up to rotation when circular and up to
@@ -240,29 +269,33 @@ theorem hash_inj_partial {blake : List UInt8 → List UInt8} (hb : Function.Inje
       · exact absurd hty hr
       · exact absurd hd (by simp)
 
-/-- THE EXACT CLASS of the finding, unconditionally (no hypothesis on the letters): two accepted inputs
-with the same seqhash (injective digest) have the same tags and are the same molecule, OR they are
-double-stranded DNA, one of them contains `U`, and they have the same other strand up to rotation
-(they differ only in the `U`/`T` spelling of letters, both complemented to `A`).  This residue is the
-class predicate `knownSep` of the check's driver; `hash_inj_partial` is the special case where the
-residue is empty. -/
+/-- WHERE collisions between different molecules can happen, unconditionally (no hypothesis on the
+letters): two accepted inputs with the same seqhash (injective digest) have the same tags and are the
+same molecule, OR they lie in the residue class — double-stranded DNA, one of them contains `U`, the same
+other strand up to rotation (they differ only in the `U`/`T` spelling of letters, both complemented to
+`A`), and for both it is the other strand that is hashed.  An UPPER bound on the collision set
+("collision ⇒ same molecule ∨ residue"); `hash_collision_of_residue` is the converse, so together the
+pair characterises the collisions exactly.  The driver's `knownSep` is the residue WITHOUT the two
+`OtherStrandLesser` conjuncts (necessary for a collision, not sufficient: `AAU`/`AAT`); it is applied
+to observed failing pairs only.  `hash_inj_partial` is the special case where the residue is empty. -/
 theorem hash_collision_class {blake : List UInt8 → List UInt8} (hb : Function.Injective blake)
     {a b : Str} {ta tb : String} {ca da cb db : Bool} {h : Str}
     (h₁ : hashSpec blake a ta ca da = .ok h) (h₂ : hashSpec blake b tb cb db = .ok h) :
     ta = tb ∧ ca = cb ∧ da = db ∧
       (SameMolecule (norm ta a) (norm tb b) ca da ∨
         (da = true ∧ ta = "DNA" ∧ ('U' ∈ norm ta a ∨ 'U' ∈ norm tb b) ∧
-          SameUpToRotation ca (revComp (norm ta a)) (revComp (norm tb b)))) := by
+          SameUpToRotation ca (revComp (norm ta a)) (revComp (norm tb b)) ∧
+          OtherStrandLesser ca (norm ta a) ∧ OtherStrandLesser ca (norm tb b))) := by
   have acc₁ := (hashSpec_ok_iff.1 h₁).1
   have acc₂ := (hashSpec_ok_iff.1 h₂).1
   obtain ⟨rfl, rfl, rfl, hc⟩ := hash_inj_canon hb h₁ h₂
   refine ⟨rfl, rfl, rfl, ?_⟩
-  rcases canon_eq_cases hc with hs | ⟨hd, hs⟩
+  rcases canon_eq_cases hc with hs | ⟨hd, hs, lx, ly⟩
   · exact Or.inl hs
   · subst hd
     by_cases hu : 'U' ∈ norm ta a ∨ 'U' ∈ norm ta b
     · right
-      refine ⟨rfl, ?_, hu, hs⟩
+      refine ⟨rfl, ?_, hu, hs, lx, ly⟩
       rcases acc₁ with ⟨hty | hty, _⟩ | ⟨_, _, hd⟩
       · exact hty
       · subst hty
@@ -273,6 +306,23 @@ theorem hash_collision_class {blake : List UInt8 → List UInt8} (hb : Function.
     · left
       simp only [not_or] at hu
       exact Or.inl (hs.of_revComp (Accepted.noU acc₁ hu.1) (Accepted.noU acc₂ hu.2))
+
+/-- CONVERSE of `hash_collision_class`, for EVERY digest: two accepted double-stranded inputs of the same
+declared kind in the residue class (same other strand up to rotation, hashed for both) receive the same
+seqhash.  With `hash_collision_class`: for accepted inputs of one kind and an injective digest,
+`hash a = hash b ↔ (canonical representatives equal) ↔ SameMolecule-with-equal-representatives ∨ residue`. -/
+theorem hash_collision_of_residue (blake : List UInt8 → List UInt8) {a b : Str} {ty : String} {c : Bool}
+    (ha : Accepted ty true (norm ty a)) (hb : Accepted ty true (norm ty b))
+    (hs : SameUpToRotation c (revComp (norm ty a)) (revComp (norm ty b)))
+    (la : OtherStrandLesser c (norm ty a)) (lb : OtherStrandLesser c (norm ty b)) :
+    hashSpec blake a ty c true = hashSpec blake b ty c true := by
+  rw [hashSpec_ok _ _ _ _ _ ha, hashSpec_ok _ _ _ _ _ hb, canon_eq_of_residue hs la lb]
+
+/-- the two extra conjuncts are needed: `AAU` and `AAT` (linear double-stranded DNA) have the same other
+strand `ATT` but each is hashed as itself, and they do not collide -/
+example : revComp (norm "DNA" "AAU".toList) = revComp (norm "DNA" "AAT".toList) ∧
+    ¬ OtherStrandLesser false (norm "DNA" "AAU".toList) ∧
+    canonSpec (norm "DNA" "AAU".toList) false true ≠ canonSpec (norm "DNA" "AAT".toList) false true := by decide
 
 /-- the finding, for EVERY digest: under double-stranded DNA the one-letter sequences `U` and `T`
 (and the circular `UC` and `TC`) are both accepted and receive the same seqhash … -/
@@ -507,8 +557,16 @@ theorem model_hash_collision_class {blake : List UInt8 → List UInt8} (hb : Fun
     ta = tb ∧ ca = cb ∧ da = db ∧
       (SameMolecule (norm ta a) (norm tb b) ca da ∨
         (da = true ∧ ta = "DNA" ∧ ('U' ∈ norm ta a ∨ 'U' ∈ norm tb b) ∧
-          SameUpToRotation ca (revComp (norm ta a)) (revComp (norm tb b)))) := by
+          SameUpToRotation ca (revComp (norm ta a)) (revComp (norm tb b)) ∧
+          OtherStrandLesser ca (norm ta a) ∧ OtherStrandLesser ca (norm tb b))) := by
   rw [hash_model_eq_spec] at h₁ h₂; exact hash_collision_class hb h₁ h₂
+
+theorem model_hash_collision_of_residue (blake : List UInt8 → List UInt8) {a b : Str} {ty : String} {c : Bool}
+    (ha : Accepted ty true (norm ty a)) (hb : Accepted ty true (norm ty b))
+    (hs : SameUpToRotation c (revComp (norm ty a)) (revComp (norm ty b)))
+    (la : OtherStrandLesser c (norm ty a)) (lb : OtherStrandLesser c (norm ty b)) :
+    Seqhash.hash blake a ty c true = Seqhash.hash blake b ty c true := by
+  rw [hash_model_eq_spec]; exact hash_collision_of_residue blake ha hb hs la lb
 
 theorem model_hash_form (blake : List UInt8 → List UInt8) (s : Str) (ty : String) (c d : Bool)
     (h : Accepted ty d (norm ty s)) :
